@@ -281,6 +281,12 @@ def main():
     for v in new_viol:
         print("VIOLATION property=%s replay=%s" % (prop, v["replay"]))
         print("  signature=%s count=%d seed=%d: %s" % (v["signature"], v["count"], v["seed"], v["detail"][:600]))
+        try:
+            note = json.load(open(v["replay"])).get("note")
+            if note:
+                print("  minimiser: " + note)
+        except (OSError, ValueError):
+            pass
     if new_viol:
         sys.exit(1)
     if infra_msgs:
